@@ -75,6 +75,7 @@ func verifScanCase(w *bufio.Writer, tmp string, caseNo int, minAgeMs int, hidden
 	content := map[string][]byte{}
 	fmt.Fprintf(w, "N %d %d %d %d %s =", minAgeMs, b2i(hidden), b2i(hasInc), len(ops), strings.Join(ops, " "))
 	var scans []string
+	cleanNext := false
 	for _, op := range ops {
 		f := strings.Split(op, ",")
 		name := ""
@@ -140,8 +141,22 @@ func verifScanCase(w *bufio.Writer, tmp string, caseNo int, minAgeMs int, hidden
 			} else {
 				os.Remove(m)
 			}
+		case "M":
+			// the version in the cache is confirmed (what finish() does after a positive answer)
+			if c.Get(name) != nil {
+				c.Done(name, nil)
+			}
+		case "G":
+			// a cache-age interval has passed: the next scan begins with the cache clean-up
+			// (time.Since(stuckSince) > CacheAge; every file of a case is older than stuckSince)
+			cleanNext = true
 		case "S":
+			if cleanNext {
+				b.Conf.CacheAge = time.Nanosecond
+			}
 			got := b.scan()
+			b.Conf.CacheAge = time.Hour
+			cleanNext = false
 			var items []string
 			for _, h := range got {
 				hashok := 0
@@ -269,9 +284,22 @@ func vnGen(r *gen.Rand, minAgeMs int) []string {
 			delete(live, name)
 		case k == 9 && r.Chance(1, 3):
 			ops = append(ops, fmt.Sprintf("D,%s", gen.Hex(fmt.Sprint(r.Intn(2)))))
+		case k == 10 && len(l) > 0:
+			// the sender is told the receiver has the file: its cache entry is confirmed
+			ops = append(ops, fmt.Sprintf("M,%s", gen.Hex(l[r.Intn(len(l))])))
+			if r.Bool() {
+				ops = append(ops, "G")
+			}
+			ops = append(ops, "S")
 		default:
+			if r.Chance(1, 3) {
+				ops = append(ops, "G")
+			}
 			ops = append(ops, "S")
 		}
+	}
+	if r.Chance(1, 3) {
+		ops = append(ops, "G")
 	}
 	ops = append(ops, "S")
 	return ops
@@ -310,6 +338,12 @@ func TestVerifScan(t *testing.T) {
 		{"W," + h("d/inc2") + ",5,50000", "S", "A," + h("d/inc2") + ",3,50000", "S", "R," + h("d/inc2"), "S", "W," + h("d/inc2") + ",8,50000", "S"},
 		{"W," + h("inc4") + ",0,50000", "S", "A," + h("inc4") + ",1,50000", "S"},
 		{"W," + h("inc1") + ",4,50000", "D," + h("1"), "S", "D," + h("0"), "S"},
+		// cache-age intervals pass: a confirmed file that stays where it is (no delete option) and an
+		// unconfirmed one are not sent again; one that went away is forgotten and sent when it is back
+		{"W," + h("inc1") + ",6,7200000", "W," + h("d/inc2") + ",7,7200000", "S", "M," + h("inc1"), "G", "S", "G", "S",
+			"R," + h("inc1"), "G", "S", "W," + h("inc1") + ",6,7200000", "S", "S"},
+		{"W," + h("inc3") + ",6,7200000", "S", "M," + h("inc3"), "S", "G", "S", "A," + h("inc3") + ",2,3600000", "G", "S", "M," + h("inc3"), "G", "S"},
+		{"W," + h("inc3") + ",6,7200000", "G", "S", "M," + h("inc3"), "R," + h("inc3"), "S", "W," + h("inc3") + ",6,7200000", "S", "G", "S"},
 	}
 	for _, minAge := range []int{0, 10000} {
 		for _, hid := range []bool{false, true} {
